@@ -8,6 +8,7 @@
 //                                    state at every dispatched token: {"c":case,"i":step,"tok":id,"tree":..,"ps":[path..],"cur":path,
 //                                    "lt":path,"ch":0/1}; a path is [record, sub-container, record, ...], [-1] = not inside the tree
 #include "common.hpp"
+#include <deque>
 #ifdef QENTEM_VERIF
 namespace vfp {
 template <class Root, class Stack, class Cont, class Loop>
@@ -199,6 +200,19 @@ static std::vector<long> render(const std::vector<long> &tmpl, const Value<Ch> &
 static const char *VARS_JSON =
     R"({"n0":0,"n1":1,"n2":2,"n3":3,"n7":7,"m2":-2,"h":0.5,"r":2.5,"s2":"2","s25":"2.5","t":true,"f":false,"nul":null,"txt":"abc","txt2":"abd","empty":"","sp":"12abc","sd":"2024-01-05","arr":[1],"obj":{"a":1}})";
 
+// replaces every string inside the containers of v by a pointer-to-value entry whose target lives in `pool`
+template <typename Ch>
+static void ptrify(Value<Ch> &v, std::deque<Value<Ch>> &pool) {
+    if (!(v.IsArray() || v.IsObject())) return;
+    for (SizeT i = 0; i < v.Size(); ++i) {
+        Value<Ch> *e = v.GetValue(i);
+        if (e == nullptr) continue;
+        if (e->IsString()) {
+            pool.emplace_back(Memory::Move(*e));
+            e->SetPointerToValue(&pool.back());
+        } else ptrify(*e, pool);
+    }
+}
 int main(int argc, char **argv) {
     vf::install_handlers();
     vf::ledger_trace("h_template", true);
@@ -288,7 +302,11 @@ int main(int argc, char **argv) {
                 after.assign(s2.First(), s2.Length());
                 if (o8b != o8) p8 = false;
             }
+            // the 16-bit rendering reads every string of the value THROUGH A POINTER-TO-VALUE entry (the strings live in a side pool): a pointer
+            // reads as its target, so the output must be the same (compared with the 8-bit rendering below for ASCII inputs: wsame)
+            std::deque<Value<char16_t>> pool16;
             Value<char16_t>   v16 = parse_value<char16_t>(vj);
+            ptrify(v16, pool16);
             std::vector<long> o16 = render<char16_t>(t, v16, p16);
             Value<char32_t>   v32 = parse_value<char32_t>(vj);
             std::vector<long> o32 = render<char32_t>(t, v32, p32);
